@@ -168,3 +168,40 @@ func HarnessC01Unary() {
 	err2 := uu.Unmarshal(&again)
 	check(err2 != nil && errors.Is(err2, io.EOF), "a unary body yields exactly one message, then a clean end")
 }
+
+// HarnessC01PoolSeedBoundary: message sizes straddling the 512-byte seed of
+// the buffer pool (and the envelope prefix arithmetic around it): one message
+// of L symbolic bytes, L case-split over 500..520, followed by a zero-valued
+// and a one-byte message, in both framings.
+//
+//verif:harness property=C01 stubs=json,wire maxconc=32
+func HarnessC01PoolSeedBoundary() {
+	L := nondetInt("L")
+	lo := bound("sizeLo", 505, 500)
+	hi := bound("sizeHi", 515, 524)
+	assume(L >= lo && L <= hi)
+	big := nondetBytesN("big", L)
+	msgs := [][]byte{big, {}, nondetBytesN("small", 1)}
+	bp := newBufferPool()
+	body := c01Send(msgs, nil, 0, bp)
+	check(len(body) == 5+L+5+5+1, "every message is framed with a 5-byte prefix and its exact payload")
+	src := &wholeReader{data: body}
+	req := &http.Request{Body: io.NopCloser(src), Header: make(http.Header)}
+	er := envelopeReader{reader: src, codec: &byteCodec{}, bufferPool: bp}
+	var inner handlerConnCloser
+	if nondetChoice("proto", 2) == 0 {
+		inner = &connectStreamingHandlerConn{request: req, unmarshaler: connectStreamingUnmarshaler{envelopeReader: er}, responseTrailer: make(http.Header)}
+	} else {
+		inner = &grpcHandlerConn{request: req, bufferPool: bp, unmarshaler: grpcUnmarshaler{envelopeReader: er}, responseHeader: make(http.Header), responseTrailer: make(http.Header)}
+	}
+	stream := &ClientStream[[]byte]{conn: wrapHandlerConnWithCodedErrors(inner)}
+	for i := range msgs {
+		ok := stream.Receive()
+		check(ok, "every message sent is received")
+		if !ok {
+			return
+		}
+		check(bytesEq(*stream.Msg(), msgs[i]), "the i-th message received equals the i-th message sent")
+	}
+	check(!stream.Receive() && stream.Err() == nil, "the stream ends cleanly after the last message")
+}
